@@ -174,6 +174,15 @@ func genInput(t *sim.Tape, allowed []Surface, st *sim.Stats) *Input {
 				break
 			}
 		}
+		if t.Bool(1, 8) {
+			if file, desc := gen.AltLayoutFont(t, 8); file != nil {
+				in.Data, in.Desc, in.Complete = file, desc, true
+				if i := bytes.Index(file, []byte("/CharStrings get begin")); i >= 0 {
+					in.Marks = append(in.Marks, i+22, i+40, i+80)
+				}
+				break
+			}
+		}
 		f := gen.GenFont(t, 14)
 		format := sim.Pick(t, gen.FontFormats)
 		data, err := gen.FontFile(f, format)
